@@ -75,7 +75,9 @@ func (i StringsInspector) SetWithBuffer(dst, value any, buf AccumulativeBuffer, 
 		case string:
 			p, set = byteconv.S2B(value.(string)), true
 		case *string:
-			p, set = byteconv.S2B(*value.(*string)), true
+			if x := value.(*string); x != nil {
+				p, set = byteconv.S2B(*x), true
+			}
 		}
 		if set {
 			ss[idx] = byteconv.B2S(buf.Bufferize(p))
@@ -85,7 +87,9 @@ func (i StringsInspector) SetWithBuffer(dst, value any, buf AccumulativeBuffer, 
 		case []byte:
 			p, set = value.([]byte), true
 		case *[]byte:
-			p, set = *value.(*[]byte), true
+			if x := value.(*[]byte); x != nil {
+				p, set = *x, true
+			}
 		}
 		if set {
 			pp[idx] = buf.Bufferize(p)
